@@ -196,7 +196,7 @@ def run(ctx):
             for k, v in c.items():
                 counts[k] = counts.get(k, 0) + v
     log("recorded %d histories x %d calls from the real app in %.0fs" % (nh, nops, time.time() - t1))
-    for need in ACTIONS + ("begin:split", "lock:refused", "begin:refused", "extend:refused", "unlock:refused", "add:refused", "force:refused"):
+    for need in ACTIONS + ("history:scaled", "begin:split", "lock:refused", "begin:refused", "extend:refused", "unlock:refused", "add:refused", "force:refused"):
         if counts.get(need, 0) == 0:
             raise Infra("recorder produced no %s events: driver is not exercising the property" % need)
     if counts.get("withdraw:refused", 0):
